@@ -38,6 +38,32 @@ func genWS(cfg Config, emit func(string, bool, []string)) {
 			emit("ws realtime two-waiters", true, ops)
 			continue
 		}
+		if c%25 == 13 {
+			// a Wait that ends by its context with nothing closed, then Clear, then the set is refilled
+			// with the SAME number of other channels, one of which closes
+			k := 1 + r.IntN(3)
+			nch = 2*k + 1
+			add("chans %d", nch)
+			var first, second []string
+			for i := 0; i < k; i++ {
+				first = append(first, strconv.Itoa(i))
+				second = append(second, strconv.Itoa(k+i))
+			}
+			add("add %s", strings.Join(first, ","))
+			add("wait %d %d", []int{0, 50}[r.IntN(2)], 30+r.IntN(40))
+			add("hasall")
+			add("clear")
+			add("add %s", strings.Join(second, ","))
+			add("hasall")
+			if r.IntN(2) == 0 {
+				add("close 0") // a channel that was cleared out closes: not a member any more
+			}
+			add("closeat %d %d", k, 150+r.IntN(50))
+			add("wait %d %d", []int{0, 50}[r.IntN(2)], 400+r.IntN(50))
+			add("hasall")
+			emit("ws clear-and-refill", true, ops)
+			continue
+		}
 		if c%5 == 4 {
 			// a channel that was returned (and removed) is added again after a Merge restored the set's
 			// size: the second Add must take effect
